@@ -62,8 +62,14 @@ impl<T: Write + Send + 'static> Worker<T> {
             let handle_result = self.handle_try_recv(&try_recv_result);
             worker_state = handle_result?;
         }
-        self.writer.flush()?;
-        Ok(worker_state)
+        let flushed = self.writer.flush();
+        match worker_state {
+            // A shutdown or disconnect must reach `worker_thread` even when the
+            // final flush fails; otherwise the writer is never released and the
+            // `WorkerGuard` waits for a rendezvous that will not happen.
+            WorkerState::Shutdown | WorkerState::Disconnected => Ok(worker_state),
+            _ => flushed.map(|()| worker_state),
+        }
     }
 
     /// Creates a worker thread that processes a channel until it's disconnected
